@@ -40,3 +40,16 @@ Theorem C05_locality : forall env e a1 b1 a2 b2,
                         (slice env e a1 b1 false)).
 Proof. exact Assembly2.C05_locality. Qed.
 Print Assumptions C05_locality.
+
+(* ---- tie C: the code locality rests on, as the source text has it (regenerated on every run): the clip of
+   Timeline.__getitem__, the widening of the source query by _Buffered.fetch, the look-back of
+   RecurringPattern._fetch_forward and its reverse pager ---- *)
+From CG Require Import Gen.Source Proofs.GenEq Proofs.GenEq7 Proofs.GenEq2.
+Example C05_source_getitem_is_model : _ := g_getitem_is_model.
+Print Assumptions C05_source_getitem_is_model.
+Example C05_source_buffered_fetch_is_model : _ := g_buffered_fetch_eq.
+Print Assumptions C05_source_buffered_fetch_is_model.
+Example C05_source_recurring_forward_is_model : _ := g_recur_fetch_forward_eq.
+Print Assumptions C05_source_recurring_forward_is_model.
+Example C05_source_recurring_reverse_is_model : _ := g_recur_fetch_reverse_eq.
+Print Assumptions C05_source_recurring_reverse_is_model.
